@@ -92,14 +92,31 @@ def check_case(ctx, L, ex):
             return
         if not lookahead_ok(ctx, L, whole[strict], "whole", payload):
             return
-    prim_ends = []  # byte offset after each primitive event of the whole decode
+    prim_ends = []  # byte offset after each primitive field of the well-formed input (from the generator's token list)
     tot = 0
-    for ev in whole[True].events:
+    for ev in case.events:
         if ev[2] != ELLIPSIS:
             tot += L.width(ev[1])
             prim_ends.append(tot)
+    boundaries = {0, n}  # where a stream may end cleanly: between two messages
+    if case.type == "CommandResponseStream" and case.meta.get("messages"):
+        from .c09 import message_ranges
+
+        boundaries |= {b for _, _, _, _, b, _ in message_ranges(L, case)}
+    for strict in (True, False):
+        got = sum(1 for e in whole[strict].events if e[0] != "!warning" and e[2] != ELLIPSIS)
+        if got < len(prim_ends):
+            ctx.problem("C10:complete-fields-missing", f"the whole input holds {len(prim_ends)} fields but only {got} were emitted before the decode ended with {whole[strict].outcome['kind']}; {case.type} {case.data.hex()[:200]}", payload)
+            return
     big = len(prim_ends) >= 10
     ctx.count("messages")
+    churned = any(t.endswith("#enc") for _, t, _ in case.events) and len(case.data) % 2 == 0
+    if churned:
+        # the prefixes are not decoded back to back with the whole input: every other encrypted parameter layout is used in between
+        from .. import history
+
+        history.churn()
+        ctx.count("prefixes-after-other-decodes")
     for cut in range(0, n):
         prefix = case.data[:cut]
         for strict in (True, False):
@@ -115,9 +132,15 @@ def check_case(ctx, L, ex):
             if d is not None:
                 ctx.problem("C10:prefix-events", f"decoding the first {cut} of {n} bytes gives event {d} = {evs[d]}, the whole input gives {ref_evs[d] if d < len(ref_evs) else None}; {case.type} {case.data.hex()[:200]}", pl)
                 return
+            if churned:
+                raw = [e for e in obs.raw if hasattr(e, "path")]
+                bad = next((k for k, (a, b) in enumerate(zip(raw, [e for e in whole[strict].raw if hasattr(e, "path")])) if not (a == b)), None)
+                if bad is not None:
+                    ctx.problem("C10:prefix-events:not-equal", f"decoding the first {cut} of {n} bytes gives event {bad} = {evs[bad]} that does not compare equal to the same event of the whole input decoded earlier (declared type {raw[bad].type!r}); {case.type} {case.data.hex()[:200]}", dict(pl, churn=True))
+                    return
             complete = sum(1 for e in prim_ends if e <= cut)
             got = sum(1 for e in evs if e[2] != ELLIPSIS)
-            clean_end = case.type == "CommandResponseStream" and obs.outcome["kind"] == "ok"
+            clean_end = case.type == "CommandResponseStream" and obs.outcome["kind"] == "ok" and cut in boundaries
             if got < complete:
                 ctx.problem("C10:complete-fields-missing", f"{complete} fields are complete in the first {cut} bytes but only {got} were emitted before {obs.outcome['kind']}; {case.type} {case.data.hex()[:200]}", pl)
                 return
